@@ -84,18 +84,38 @@ def _raise_fault(spec: dict, op_name: str):
     raise cls(spec.get("message", "injected non-botocore failure"))
 
 
+def _garbled(spec: dict) -> dict:
+    """An HTTP-200 answer the SDK cannot interpret (a value of a newer service version, a member missing): from the SDK's point of
+    view the call failed, although the service applied the request."""
+    op = {"Id": "garbled-op", "Type": "STEP", "Status": "SUCCEEDED", "SubType": "Step", "Name": "x"}
+    how = spec.get("how", "subtype")
+    if how == "subtype":
+        op["SubType"] = "SubTypeOfANewerService"
+    elif how == "status":
+        op["Status"] = "STATUS_OF_A_NEWER_SERVICE"
+    elif how == "type":
+        op["Type"] = "TYPE_OF_A_NEWER_SERVICE"
+    elif how == "no-id":
+        del op["Id"]
+    return op
+
+
 class FakeLambdaClient:
     """What LambdaClient expects from boto3: two methods taking wire kwargs and returning wire dicts."""
 
     def checkpoint_durable_execution(self, **kw):
         resp = RT.rpc("api", op="checkpoint", kw=kw)
         if resp[0] == "raise":
+            if resp[1].get("kind") == "garble":
+                return {"CheckpointToken": "tok-garbled", "NewExecutionState": {"Operations": [_garbled(resp[1])]}}
             _raise_fault(resp[1], "CheckpointDurableExecution")
         return resp[1]
 
     def get_durable_execution_state(self, **kw):
         resp = RT.rpc("api", op="get_state", kw=kw)
         if resp[0] == "raise":
+            if resp[1].get("kind") == "garble":
+                return {"Operations": [_garbled(resp[1])], "NextMarker": None}
             _raise_fault(resp[1], "GetDurableExecutionState")
         return resp[1]
 
